@@ -37,8 +37,8 @@ META = {
             'inside Coq; every non-negotiable pair is offered live and must fail.',
     'note': 'Trusted: Coq kernel + vm_compute; Spec/Iana.v (my transcription of the registry and naming conventions; '
             'cross-checked against CipherSuite.ietfNames and a Python twin); translator/units_suites.py (calls the real '
-            'functions; the server/client candidate-list composition of tlsconnection.py is transcribed there and in '
-            'Model/C20_Classify.v srv_dispatch/cli_dispatch, both tied by the live handshakes); all-permissive '
+            'functions; the candidate-list composition and the key-exchange dispatch of tlsconnection.py are read from its ast '
+            'and additionally tied by the live handshakes); all-permissive '
             'HandshakeSettings; SSLv2 cipher kinds and static (EC)DH suites are never negotiable and only checked as such.',
     'technique': 'Rocq/Coq proof (exhaustive finite domain, vm_compute) over regenerated tables + live-handshake correspondence',
 }
@@ -220,14 +220,18 @@ def live_cases(ctx, d, quick):
     for (sid, vi) in neg:
         for cfg in c20_live.CFGS:
             pos.append({'sid': sid, 'ver': (3, vi), 'cfg': cfg, 'seed': ctx.rng.randrange(1 << 30)})
-    if not quick:       # more dimensions: other TLS 1.3 credentials, a second seed
+    if not quick:       # more dimensions: other TLS 1.3 credentials, MAC-then-encrypt, payload sizes (1 byte .. 2 records)
         for (sid, vi) in neg:
             if vi == 4:
                 for cred in ('ecdsa', 'ed25519', 'rsapss'):
                     for cfg in c20_live.CFGS:
                         pos.append({'sid': sid, 'ver': (3, vi), 'cfg': cfg, 'cred13': cred, 'variant': 'cred13=' + cred,
                                     'seed': ctx.rng.randrange(1 << 30)})
-            pos.append({'sid': sid, 'ver': (3, vi), 'cfg': 'client-pinned', 'variant': 'seed2',
+            pos.append({'sid': sid, 'ver': (3, vi), 'cfg': 'client-pinned', 'variant': 'etm-off,n=1', 'etm': False, 'n': 1,
+                        'seed': ctx.rng.randrange(1 << 30)})
+            pos.append({'sid': sid, 'ver': (3, vi), 'cfg': 'server-pinned', 'variant': 'etm-off,n=1000', 'etm': False,
+                        'n': 1000, 'seed': ctx.rng.randrange(1 << 30)})
+            pos.append({'sid': sid, 'ver': (3, vi), 'cfg': 'client-pinned', 'variant': 'n=20000', 'n': 20000,
                         'seed': ctx.rng.randrange(1 << 30)})
     negset = set(neg)
     for sid in d['all']:
@@ -255,10 +259,10 @@ def run(ctx):
         'Coq 8.16.1 kernel + vm_compute (finite-domain decisions and case evaluation)',
         'Spec/Iana.v: my transcription of the IANA TLS Cipher Suites registry and of the naming conventions '
         '(cross-checked on every run against CipherSuite.ietfNames and the Python twin harness/c20_iana.py)',
-        'translator/units_suites.py: imports tlslite from the tree under test and calls the real functions; the way '
-        'tlsconnection.py concatenates the get*Suites filters is transcribed there (tied by the live handshakes)',
-        'Model/C20_Classify.v srv_dispatch/cli_dispatch: hand transcription of the key-exchange dispatch (tied by the '
-        'ServerKeyExchange/ClientKeyExchange shapes parsed from the wire)',
+        'translator/units_suites.py: imports tlslite from the tree under test and calls the real functions; reads from the '
+        'ast of tlsconnection.py how the get*Suites filters are concatenated (scenario flags: credentials present, group '
+        'intersections non-empty) and the key-exchange dispatch chains (fail closed on any other shape)',
+        'Model/C20_Classify.v expected_srv_action/expected_cli_action: which KeyExchange class a name calls for',
         'harness/c20_live.py wire parser and passive call recorders',
     ]
     ctx.assumptions += ['all-permissive HandshakeSettings (every cipher, MAC and key-exchange word enabled)',
@@ -280,10 +284,9 @@ def run(ctx):
                       sample={'sid': '0x%04X' % sid, 'ver': [3, vi], 'name': iana.name_of(sid)} if (sid + vi) % 41 == 0 else None)
         ctx.count('filterForVersion(all ids x versions)', len(d['all']) * 5, [('ids', len(d['all']))])
         for key, what, rep in viols:
-            found = True
             rep['how'] = ('PYTHONPATH=$VERIF_REPO: compare the named tlslite function on this suite id with the meaning of '
                           'its IANA name (harness/c20_iana.py); ./check C20 --replay <this file>')
-            ctx.violation(key, what, rep)
+            found = ctx.violation(key, what, rep) or found
         for k in unknown:
             tie_broken = tie_broken or ('CipherSuite.%s has no stated meaning in Model/C20_Classify.v list_semantics' % k)
         ctx.log('direct oracle: %d negotiable pairs, %d deviations' % (len(neg), len(viols)))
@@ -299,9 +302,8 @@ def run(ctx):
                     if 'case' not in ''.join(ctx.notes):
                         ctx.notes.append('ietfNames spells DH_anon/ECDH_anon as DH_ANON/ECDH_ANON (case only; e.g. %r vs %r)' % (lib, mine))
                 else:
-                    found = True
-                    ctx.violation('ietf-name:0x%04x' % sid, 'CipherSuite.ietfNames[0x%04X] = %r but the registered name is %r'
-                                  % (sid, lib, mine), {'kind': 'name', 'sid': sid, 'lib': lib, 'registry': mine})
+                    found = ctx.violation('ietf-name:0x%04x' % sid, 'CipherSuite.ietfNames[0x%04X] = %r but the registered name is %r'
+                                          % (sid, lib, mine), {'kind': 'name', 'sid': sid, 'lib': lib, 'registry': mine}) or found
         ctx.notes.append('not in the IANA registry (draft ChaCha20 code points, parsed by the same conventions): '
                          + ', '.join('0x%04X' % s for s in sorted(iana.UNREGISTERED) if s in d['all']))
         ssl3_late = sorted(s for (s, vi) in neg if vi == 0 and (iana.meaning(s) or {}).get('kx') in ('ECDHE', 'SRP'))
@@ -336,6 +338,17 @@ def run(ctx):
             m = iana.meaning(r['sid'])
             key = (m['kx'], m['auth'], m['cipher'], m['keylen'], m['mac'], r['ver'], r['cfg'], c.get('variant'))
             ctx.count('live-handshake(negotiable)', 1, [key], sample=brief(r) if len(good) % 97 == 5 else None)
+            crashed = [o for o in (r.get('outcome') or []) if o and o[0] in ('Other', 'Deadlock')]
+            if not r['ok'] and crashed:
+                # the endpoints' own filters admit the suite, then an endpoint dies outside the documented errors:
+                # no key exchange of the kind the name denotes can be performed for a suite the library selects
+                sel = (r.get('wire') or {}).get('sh_suite') == r['sid']
+                found = ctx.violation('negotiated-but-kx-fails:0x%04x' % r['sid'],
+                                      '0x%04X %s at (3,%d) [%s]: admitted by both endpoints\' filters%s, then the handshake dies with %s'
+                                      % (r['sid'], iana.name_of(r['sid']), r['ver'], r['cfg'],
+                                         ' and selected in the ServerHello' if sel else '', crashed[0][1:]),
+                                      {'kind': 'live', 'case': brief(r)}) or found
+                continue
             if not r['ok'] or not r.get('app_ok') or r.get('forced_into_offer'):
                 # tables say negotiable, the endpoints do not complete it: model and implementation disagree
                 tie_broken = tie_broken or ('0x%04X at (3,%d) [%s] is negotiable by the generated tables but the live '
@@ -348,13 +361,20 @@ def run(ctx):
             ctx.count('live-handshake(non-negotiable must fail)', 1, [(m['kx'], m['auth'], m['cipher'], m['mac'], r['ver'])])
             if r['ok']:
                 if not iana.defined_in(m, (3, r['ver'])):
-                    found = True
-                    ctx.violation('undefined-version:0x%04x@3.%d' % (r['sid'], r['ver']),
-                                  '0x%04X %s was negotiated live at (3,%d), which does not define it'
-                                  % (r['sid'], iana.name_of(r['sid']), r['ver']), {'kind': 'live', 'case': brief(r)})
+                    found = ctx.violation('undefined-version:0x%04x@3.%d' % (r['sid'], r['ver']),
+                                          '0x%04X %s was negotiated live at (3,%d), which does not define it'
+                                          % (r['sid'], iana.name_of(r['sid']), r['ver']),
+                                          {'kind': 'live', 'case': brief(r)}) or found
                 else:
                     tie_broken = tie_broken or ('0x%04X at (3,%d) completes live but the generated tables say not negotiable'
                                                 % (r['sid'], r['ver']))
+        odd = sorted(set(r['sid'] for r in good if r['ver'] < 4 and iana.meaning(r['sid'])['auth'] in ('RSA', 'DSS', 'ECDSA')
+                         and r['srv']['srv_cert'] is None))
+        if odd:
+            ctx.notes.append('recorded, not raised (session state, not suite semantics): the SERVER-side session.serverCertChain '
+                             'is None although a certificate was sent and verified by the client, for '
+                             + ', '.join('0x%04X' % x for x in odd)
+                             + ' (tlsconnection.py "Create the session object" tests certAllSuites/ecdheEcdsaSuites, not dheDsaSuites)')
         if res['model_ok'] and good:
             lits = [obs_lit(r) for r in good]
             bads, errs = vlib.coq_bad_indices('C20l', ['Spec.Iana', 'Model.C20_Live'], 'obs', LIVE_CHECKS, lits,
@@ -365,14 +385,13 @@ def run(ctx):
             for chk, bad in zip(LIVE_CHECKS, bads):
                 for i in bad:
                     r = good[i]
-                    found = True
                     key = (MAC_KEY % r['sid']) if chk == 'chk_names_mac' else 'live-%s:0x%04x' % (chk[4:], r['sid'])
-                    ctx.violation(key, 'live handshake 0x%04X %s at (3,%d) [%s]: %s disagrees with the IANA name (getMacName=%r, '
+                    found = ctx.violation(key, 'live handshake 0x%04X %s at (3,%d) [%s]: %s disagrees with the IANA name (getMacName=%r, '
                                   'getCipherName=%r, wire=%s, factory=%s, prf=%s)'
                                   % (r['sid'], iana.name_of(r['sid']), r['ver'], r['cfg'], chk, r['cli']['sess_mac'],
                                      r['cli']['sess_cipher'], r['wire'], r['fact'], r['prfs'] or r['hkdf']),
                                   {'kind': 'live', 'check': chk, 'case': brief(r),
-                                   'how': './check C20 --replay <this file> reruns the handshake and prints the observations'})
+                                   'how': './check C20 --replay <this file> reruns the handshake and prints the observations'}) or found
         elif not res['model_ok']:
             tie_broken = tie_broken or ('model does not compile: %s' % res['failing'])
     ctx.cov['rule'] = ('exhaustive: every suite id x version the tables call negotiable is checked by the direct oracle and '
